@@ -173,8 +173,9 @@ impl<K: Hash + Eq, KH: KeyHasher<K>, S: BuildHasher> SampledLFU<K, KH, S> {
     /// Put a hashed key and cost to SampledLFU
     #[inline]
     pub fn increment_hashed_key(&mut self, key: u64, cost: i64) {
-        self.key_costs.insert(key, cost);
-        self.used += cost
+        // re-inserting a tracked key replaces its cost: only the difference is added
+        let prev = self.key_costs.insert(key, cost).unwrap_or(0);
+        self.used += cost - prev;
     }
 
     /// Remove an entry from SampledLFU by hashed key
